@@ -92,8 +92,19 @@ def r92(db, ctx):
     fs = {k: db.fn(f'lightmotif::pwm::FrequencyMatrix::{k}') for k in ('to_weight', 'into_scoring')}
     want = {'to_weight': 0.0, 'into_scoring': float('-inf')}
     for k, f in fs.items():
-        R = X.Rec(f)
+        R = X.Rec(f, db, ite=True)        # a helper `if f != 0.0 { x / f } else { 0.0 }` (inlined) makes the stored value conditional
         zs = zero_branch_value(f, R, lambda e: derives_from_background(db, f, R, e))
+        if not zs:
+            # the branch is inside the stored value: dst = ite(f ==/!= 0, a, b)
+            for s_ in X.stores(f, R):
+                v_ = norm(s_['value'])
+                if v_[0] != 'ite':
+                    continue
+                rel = G.as_relation(v_[1], True)
+                if rel[0] in ('eq', 'ne') and norm(rel[2]) == ('k', 0.0) and derives_from_background(db, f, R, rel[1]):
+                    first, second = ('eq', 'ne') if rel[0] == 'eq' else ('ne', 'eq')
+                    zs.append((first, dict(s_, value=v_[2])))
+                    zs.append((second, dict(s_, value=v_[3])))
         zero_side = [s for r, s in zs if r == 'eq']
         nz_side = [s for r, s in zs if r == 'ne']
         ok = len(zero_side) == 1 and len(nz_side) == 1 and norm(zero_side[0]['value']) == ('k', want[k])
